@@ -4,7 +4,7 @@
 (2) exhaustive n=12 / n=16 incl. negative and over-wide inputs, boundary+random n=32,
 (3) tables: a shadow of written byte addresses (wrappers on the backing Memory's public write_*/reset) decides
     which rows the data-memory table must list; values are parsed back and compared with the backing store."""
-from ..common import guarded, rng_for, h64, make_riscv, install_program, set_regs, preload_mem, real_regs, M32
+from ..common import decoy_riscv_touch, decoy_toy_touch, guarded, rng_for, h64, make_riscv, install_program, set_regs, preload_mem, real_regs, M32
 from ..refmodels.numfmt import check_repr
 from ..gen import progs as G
 
@@ -85,7 +85,21 @@ class WriteShadow:
         mem.reset = reset
 
 
+def other_views(mem, res):
+    """the same memory dumped at the other granularities (public views of the Memory class) right before the table is
+    asked for: a view at one width must not change what the table of another width shows"""
+    for name in ("bytewise_repr", "halfwordwise_repr", "wordwise_repr", "doublewordwise_repr"):
+        f = getattr(mem, name, None)
+        if f is not None:
+            try:
+                f()
+                res.count("views_at_other_granularity")
+            except Exception:
+                pass  # not offered for this addressing type
+
+
 def check_register_table(sim, res, case):
+    decoy_riscv_touch()
     tab = sim.get_register_entries()
     vals = real_regs(sim)
     res.count("register_tables_checked")
@@ -102,6 +116,9 @@ def check_register_table(sim, res, case):
 
 def check_memory_table(sim, shadow, res, case):
     back = getattr(sim.state.memory, "memory", sim.state.memory)
+    decoy_riscv_touch()
+    if len(shadow.written) % 2:
+        other_views(back, res)
     tab = sim.get_data_memory_entries()
     res.count("memory_tables_checked")
     addrs = [row[0][0] for row in tab]
@@ -204,6 +221,9 @@ def run_toy_case(case, res):
     k = 0
     while True:
         st = sim.state
+        decoy_toy_touch()
+        if k % 2:
+            other_views(st.memory, res)
         tab = sim.get_memory_table_entries()
         res.count("toy_tables_checked")
         cells = sorted(st.memory.memory_file.keys())
